@@ -401,6 +401,22 @@ func (o *C19) Check(x *h.Exec, ev *h.Event) {
 						if hasKValue(it.Attr.Expr, "type") && (a == nil || a.Cons == nil || a.Cons.K != "typedecl") {
 							certain = false
 						}
+						// an object written under an any-expression of an object type with
+						// a key the type does not declare: native syntax decodes the object
+						// item by item and skips that one, JSON (no structural access)
+						// reports every variable - precision the statement leaves open
+						if a != nil && a.Cons != nil && a.Cons.K == "any" && strings.Contains(a.Cons.Type, "object(") {
+							it.Attr.Expr.Walk(func(e *world.Expr) {
+								if e.K != "obj" {
+									return
+								}
+								for _, k := range e.Keys {
+									if (k.K == "str" || k.K == "kw") && !strings.Contains(a.Cons.Type, k.S+"=") {
+										certain = false
+									}
+								}
+							})
+						}
 					}
 				}
 				if mc.Block == nil || mc.Block.Addr == nil {
